@@ -836,12 +836,29 @@ theorem St.get_all {P : Res → Prop} (hP : Preserved P) {s : St} {id : Str} (hs
   | none => exact hP.empty
   | some r => obtain ⟨p, hp, rfl⟩ := St.get_mem h; exact hs p hp
 
+theorem St.addResource_all {P : Res → Prop} (hP : Preserved P) {s : St} {id ver : Str} {avail cur pre : Bool}
+    {idx : Option Bool} (hs : StAll P s) : StAll P (s.addResource id ver avail cur pre idx).1 := by
+  simp only [St.addResource]
+  exact St.set_all hs (hP.add _ _ _ _ _ _ (St.get_all hP hs))
+
 theorem step_all {P : Res → Prop} (hP : Preserved P) {s : St} (op : Op) (hs : StAll P s) : StAll P (step s op).1 := by
   cases op with
   | setFlags o d p => exact hs
   | add id ver avail cur pre idx =>
     simp only [step]
-    exact St.set_all hs (hP.add _ _ _ _ _ _ (St.get_all hP hs))
+    exact St.addResource_all hP hs
+  | addMany items avail cur pre idx =>
+    simp only [step]
+    induction items generalizing s with
+    | nil => exact hs
+    | cons it rest ih => exact ih (St.addResource_all hP hs)
+  | addVersion id ver avail cur pre =>
+    simp only [step]
+    split
+    · exact hs
+    · rename_i r hr
+      obtain ⟨p, hp, rfl⟩ := St.get_mem hr
+      exact St.set_all hs (hP.add _ _ _ _ _ _ (hs p hp))
   | touch id ver kind =>
     simp only [step]
     split
